@@ -404,6 +404,14 @@ type c16Tree struct {
 	// custom transformer configuration (`configurations:` file): extra field specs for a CRD kind plus the
 	// directive that uses them; only used by the concurrent rounds (C16 race driver)
 	Cfg []c16CfgSpec `json:"cfg,omitempty"`
+	// configMapGenerator / secretGenerator entries (names get a content-hash suffix): concurrent rounds only
+	Gens []c16Gen `json:"gens,omitempty"`
+}
+
+type c16Gen struct {
+	Secret bool     `json:"secret"`
+	Name   string   `json:"name"`
+	Lits   []string `json:"lits"` // key=value
 }
 
 // c16CfgSpec: one custom field spec `{kind: Kind, path: spec/<Field>}` of directive Dir
@@ -582,6 +590,26 @@ func (t *c16Tree) fs(schemas []c16Schema) filesys.FileSystem {
 						fmt.Fprintf(&k, "- name: %s\n  count: 7\n", r.Name)
 					}
 				}
+			}
+		}
+	}
+	for _, secret := range []bool{false, true} {
+		first := true
+		for _, gn := range t.Gens {
+			if gn.Secret != secret {
+				continue
+			}
+			if first {
+				if secret {
+					k.WriteString("secretGenerator:\n")
+				} else {
+					k.WriteString("configMapGenerator:\n")
+				}
+				first = false
+			}
+			fmt.Fprintf(&k, "- name: %s\n  literals:\n", gn.Name)
+			for _, l := range gn.Lits {
+				fmt.Fprintf(&k, "  - %s\n", l)
 			}
 		}
 	}
@@ -821,6 +849,113 @@ func c16Exec(seq c16Seq, pristine bool) c16SeqRes {
 	return res
 }
 
+// ---------------------------------------------------------------- model-independent expectations
+
+// c16Expect judges one executed sequence against facts about the API that do not need the Coq model (so that a
+// disagreeing case can be reported as a concrete failing input, and a replay can decide on its own):
+//   - SetSchema never touches the parsed maps; with no version and no schema it changes nothing but the version string
+//     (in particular it must not clear schemaInit: every build calls it) and is a no-op when a schema is set and !reset;
+//     with a custom schema / a valid version it installs exactly that and re-arms initSchema;
+//   - SchemaForResourceType leaves schemaInit set; queries never shrink the maps;
+//   - precomputed kinds are answered from the table without touching the state;
+//   - GetSchemaVersion agrees with the snapshot; ResetOpenAPI restores the pristine state;
+//   - a build without openapi field (also in its base) neither changes customSchema nor un-initialises the schema.
+func c16Expect(seq c16Seq, res c16SeqRes) []string {
+	var bad []string
+	say := func(i int, name, detail string) {
+		bad = append(bad, fmt.Sprintf("%s (step %d %s): %s", name, i, seq.Ops[i].K, detail))
+	}
+	js := func(s openapi.VerifStateC16) string { b, _ := json.Marshal(s); return string(b) }
+	mapsOf := func(s openapi.VerifStateC16) string {
+		return fmt.Sprint(s.NumDefs, s.NumByType, s.NumNs, s.Defs, s.ByType, s.Ns, s.NsNotPrecomp)
+	}
+	isDefaultField := func(ver *string, schema int) bool { return schema < 0 && (ver == nil || *ver == "") }
+	prev := res.First
+	for i, op := range seq.Ops {
+		if i >= len(res.Steps) {
+			break
+		}
+		st := res.Steps[i]
+		cur := st.Snap
+		if op.K != "reset" && (cur.NumDefs < prev.NumDefs || cur.NumByType < prev.NumByType || cur.NumNs < prev.NumNs) {
+			say(i, "maps-shrank", fmt.Sprintf("before %s after %s", mapsOf(prev), mapsOf(cur)))
+		}
+		switch op.K {
+		case "set":
+			if mapsOf(cur) != mapsOf(prev) {
+				say(i, "SetSchema-touched-the-parsed-maps", fmt.Sprintf("before %s after %s", mapsOf(prev), mapsOf(cur)))
+			}
+			isSet := prev.Version != "" || prev.HasCustom
+			switch {
+			case isSet && !op.Reset:
+				if js(cur) != js(prev) || st.Class != ClsOk {
+					say(i, "SetSchema-without-reset-changed-a-set-schema", js(prev)+" -> "+js(cur))
+				}
+			case st.Class != ClsOk:
+				// rejected field: nothing to expect here (the model covers what is left behind)
+			case isDefaultField(op.Ver, op.Schema):
+				want := prev
+				want.Version = ""
+				if js(cur) != js(want) {
+					say(i, "default-SetSchema-changed-more-than-the-version", js(prev)+" -> "+js(cur))
+				}
+			case op.Schema >= 0:
+				if !cur.HasCustom || cur.CustomHash != seq.Schemas[op.Schema].hash() || cur.SchemaInit || cur.Version != "custom" {
+					say(i, "custom-SetSchema-not-installed", js(cur))
+				}
+			default:
+				if cur.HasCustom || cur.SchemaInit || op.Ver == nil || cur.Version != *op.Ver {
+					say(i, "version-SetSchema-not-installed", js(cur))
+				}
+			}
+		case "schemafor":
+			if st.Class == ClsOk && !cur.SchemaInit {
+				say(i, "SchemaForResourceType-left-schema-uninitialised", js(cur))
+			}
+		case "isns", "cluster":
+			if op.Tm <= 2 { // ConfigMap, Namespace, Deployment: precomputed
+				if js(cur) != js(prev) || st.Class != ClsOk {
+					say(i, "precomputed-kind-touched-the-state", js(prev)+" -> "+js(cur))
+				}
+				wantNs := op.Tm != 1
+				if op.K == "isns" && (st.A != wantNs || !st.B) {
+					say(i, "precomputed-answer", fmt.Sprintf("%v %v", st.A, st.B))
+				}
+				if op.K == "cluster" && st.A != !wantNs {
+					say(i, "precomputed-answer", fmt.Sprint(st.A))
+				}
+			}
+		case "version":
+			want := cur.Version
+			switch {
+			case cur.HasCustom:
+				want = "using custom schema from file provided"
+			case cur.Version == "":
+				want = cur.DefaultVersion
+			}
+			if st.Str != want || js(cur) != js(prev) {
+				say(i, "GetSchemaVersion", fmt.Sprintf("got %q want %q", st.Str, want))
+			}
+		case "reset":
+			if cur.Version != "" || cur.HasCustom || cur.SchemaInit || cur.DefaultStatus != 0 || cur.NoBuiltin || cur.NumDefs != -1 || cur.NumByType != -1 || cur.NumNs != -1 {
+				say(i, "ResetOpenAPI-not-pristine", js(cur))
+			}
+		case "build":
+			t := op.Tree
+			if isDefaultField(t.Ver, t.Schema) && (!t.HasBase || isDefaultField(t.BaseVer, t.BaseSchema)) {
+				if cur.HasCustom != prev.HasCustom || cur.CustomHash != prev.CustomHash {
+					say(i, "default-build-changed-customSchema", js(prev)+" -> "+js(cur))
+				}
+				if prev.SchemaInit && !cur.SchemaInit {
+					say(i, "default-build-uninitialised-the-schema", js(prev)+" -> "+js(cur))
+				}
+			}
+		}
+		prev = cur
+	}
+	return bad
+}
+
 // child: reads {"seqs":[...]} from stdin, executes them one after the other, writes the results.
 func c16ChildMain() {
 	var in struct {
@@ -830,18 +965,35 @@ func c16ChildMain() {
 		fmt.Fprintln(os.Stderr, "child: bad input:", err)
 		os.Exit(3)
 	}
-	out := make([]c16SeqRes, len(in.Seqs))
+	// one result per line, flushed as soon as it exists: the parent may stop waiting when its time budget is used up
+	enc := json.NewEncoder(os.Stdout)
 	for i, s := range in.Seqs {
-		out[i] = c16Exec(s, i == 0) // the first sequence of a child sees the pristine process state
+		r := c16Exec(s, i == 0) // the first sequence of a child sees the pristine process state
+		_ = enc.Encode(r)
 	}
-	_ = json.NewEncoder(os.Stdout).Encode(out)
 }
 
-// c16RunChildren distributes the sequences over child processes.
+// c16RunChildren distributes the sequences over child processes and waits for all of them.
 func c16RunChildren(seqs []c16Seq, nproc int) ([]c16SeqRes, error) {
-	self, err := os.Executable()
+	res, done, err := c16RunChildrenBudget(seqs, nproc, 2*time.Hour)
 	if err != nil {
 		return nil, err
+	}
+	for i, d := range done {
+		if !d {
+			return nil, fmt.Errorf("sequence %d produced no result", i)
+		}
+	}
+	return res, nil
+}
+
+// c16RunChildrenBudget: as c16RunChildren, but stops waiting after the wall-time budget: the children are killed and
+// the sequences without a result are reported as not done (a slow implementation must not blow the check's budget;
+// it is not a violation by itself).
+func c16RunChildrenBudget(seqs []c16Seq, nproc int, budget time.Duration) ([]c16SeqRes, []bool, error) {
+	self, err := os.Executable()
+	if err != nil {
+		return nil, nil, err
 	}
 	if nproc > len(seqs) {
 		nproc = len(seqs)
@@ -849,7 +1001,9 @@ func c16RunChildren(seqs []c16Seq, nproc int) ([]c16SeqRes, error) {
 	if nproc < 1 {
 		nproc = 1
 	}
+	deadline := time.Now().Add(budget)
 	results := make([]c16SeqRes, len(seqs))
+	done := make([]bool, len(seqs))
 	errs := make([]error, nproc)
 	var wg sync.WaitGroup
 	for p := 0; p < nproc; p++ {
@@ -866,29 +1020,43 @@ func c16RunChildren(seqs []c16Seq, nproc int) ([]c16SeqRes, error) {
 			cmd := exec.Command(self)
 			cmd.Env = append(os.Environ(), "VERIF_C16_CHILD=1")
 			cmd.Stdin = bytes.NewReader(in)
-			var so, se bytes.Buffer
-			cmd.Stdout, cmd.Stderr = &so, &se
-			if err := cmd.Run(); err != nil {
-				errs[p] = fmt.Errorf("child %d: %v: %s", p, err, se.String())
+			var se bytes.Buffer
+			cmd.Stderr = &se
+			so, err := cmd.StdoutPipe()
+			if err != nil {
+				errs[p] = err
 				return
 			}
-			var out []c16SeqRes
-			if err := json.Unmarshal(so.Bytes(), &out); err != nil || len(out) != len(mine) {
-				errs[p] = fmt.Errorf("child %d: bad output (%v)", p, err)
+			if err := cmd.Start(); err != nil {
+				errs[p] = err
 				return
 			}
-			for j, i := range idx {
-				results[i] = out[j]
+			timer := time.AfterFunc(time.Until(deadline), func() { _ = cmd.Process.Kill() })
+			dec := json.NewDecoder(so)
+			n := 0
+			for n < len(mine) {
+				var r c16SeqRes
+				if err := dec.Decode(&r); err != nil {
+					break
+				}
+				results[idx[n]] = r
+				done[idx[n]] = true
+				n++
+			}
+			werr := cmd.Wait()
+			timedOut := !timer.Stop()
+			if n < len(mine) && !timedOut {
+				errs[p] = fmt.Errorf("child %d: stopped after %d of %d sequences (%v): %s", p, n, len(mine), werr, lastLines(se.String(), 15))
 			}
 		}(p)
 	}
 	wg.Wait()
 	for _, e := range errs {
 		if e != nil {
-			return nil, e
+			return nil, nil, e
 		}
 	}
-	return results, nil
+	return results, done, nil
 }
 
 // ---------------------------------------------------------------- generators
@@ -1247,12 +1415,23 @@ func runC16(r *Run, rng *Rng, tier string) error {
 	if nproc > 8 {
 		nproc = 8
 	}
-	results, err := c16RunChildren(seqs, nproc)
+	budget := 60 * time.Second
+	if tier == "thorough" {
+		budget = 12 * time.Minute
+	}
+	results, seqDone, err := c16RunChildrenBudget(seqs, nproc, budget)
 	if err != nil {
 		<-raceDone
 		return err
 	}
 	for i, seq := range seqs {
+		if !seqDone[i] {
+			// the wall-time budget ran out (slow implementation / loaded machine): not a violation, but recorded
+			r.Meta.Skipped++
+			r.Count("sequence", "not-run-time-budget")
+			continue
+		}
+		r.Count("sequence", "run")
 		res := results[i]
 		nontrivial := false
 		for j, op := range seq.Ops {
@@ -1269,10 +1448,18 @@ func runC16(r *Run, rng *Rng, tier string) error {
 				r.Count("build_patches", fmt.Sprint(len(op.Tree.Patches)))
 			}
 		}
+		for _, e := range c16Expect(seq, res) {
+			name := e
+			if j := strings.Index(e, " ("); j > 0 {
+				name = e[:j]
+			}
+			r.Count("state_expectation_failed", name)
+			r.Violation(OracleViolation{Law: "state_expectation", Class: "C16/state-expectation:" + name, Detail: e, Replay: seq})
+		}
 		last := res.Steps[len(res.Steps)-1].Snap
 		r.Count("final_state", fmt.Sprintf("custom=%v init=%v dflt=%d", last.HasCustom, last.SchemaInit, last.DefaultStatus))
 		precomp := "[]"
-		if i == 0 {
+		if len(r.cases) == 0 {
 			precomp = c16PrecompTerm() // the first case also carries the runtime precomputed table
 		}
 		term, err := c16CaseTermP(seq, res, precomp)
